@@ -881,6 +881,71 @@ func c11TargetedStore(r *ev.Run) {
 		r.Count("targeted:close-vs-"+action, 1)
 		r.Eval(true, ev.Digest("t3", point, action, ci))
 	})
+	// (iv) Close while the background compaction worker is between writing the merged segment and swapping it in
+	compactPoints := []string{"compact.begin", "crash:compact.create.hybrid", "crash:compact.written"}
+	r.Cases("targeted-close-vs-compaction", r.Pick(1, 5)*len(compactPoints), func(ci int, rng *rand.Rand) {
+		dir, err := os.MkdirTemp("", "verif-c11k-*")
+		if err != nil {
+			panic(err)
+		}
+		defer os.RemoveAll(dir)
+		p := storeParams{VecKind: "flat", Text: true, Meta: true, Dim: 2, Metric: comet.Euclidean, CompactionThreshold: 2, MemtableSizeLimit: 1 << 20, FlushThreshold: 1 << 40}
+		s, err := p.open(dir)
+		if err != nil {
+			return
+		}
+		point := compactPoints[ci%len(compactPoints)]
+		fail := func(sig, what string, extra map[string]any) {
+			r.ViolationAt("targeted-close-vs-compaction", ci, sig, fmt.Sprintf("compaction worker held at %s: %s", point, what), extra)
+		}
+		base := uint32(1<<28 + 1<<21 + ci<<8)
+		for seg := 0; seg < 3; seg++ {
+			d := genStoreDoc(rng, p, base+uint32(seg), "k")
+			s.AddWithID(d.ID, d.Vec, d.Text, d.Meta)
+			s.Flush()
+		}
+		closeDone := make(chan error, 1)
+		started := make(chan struct{})
+		var once sync.Once
+		ctl.setTarget(point, 1, func(args []any) {
+			once.Do(func() { close(started) })
+			go func() { closeDone <- s.Close() }()
+			time.Sleep(100 * time.Millisecond) // let Close get as far as it can while the worker is held here
+		})
+		s.TriggerCompaction()
+		select {
+		case <-started:
+		case <-time.After(10 * time.Second):
+			ctl.clearTarget()
+			s.Close()
+			r.Inconclusive("compaction worker did not reach " + point)
+			return
+		}
+		select {
+		case err := <-closeDone:
+			if err != nil {
+				fail("conc.store.close-error", err.Error(), nil)
+			}
+		case <-time.After(60 * time.Second):
+			buf := make([]byte, 1<<20)
+			dump := string(buf[:runtime.Stack(buf, true)])
+			if goroutineDumpShowsCometDeadlock(dump) {
+				fail("conc.store.deadlock", "Close called while a compaction was in progress never returned; every goroutine inside comet is parked on a sync primitive", map[string]any{"goroutine_dump": trimTo(dump, 12000)})
+			} else {
+				r.Inconclusive("Close vs compaction watchdog fired without a provable wait cycle")
+			}
+			ctl.clearTarget()
+			return
+		}
+		ctl.clearTarget()
+		if s2, err := p.open(dir); err != nil {
+			fail("conc.store.open-error", "reopen after Close raced with a compaction: "+err.Error(), nil)
+		} else {
+			s2.Close()
+		}
+		r.Count("targeted:close-vs-compaction:"+point, 1)
+		r.Eval(true, ev.Digest("t4", point, ci))
+	})
 	for p, c := range ctl.snapshotCounts() {
 		if strings.HasPrefix(p, "memq.") || strings.HasPrefix(p, "flush.") || strings.HasPrefix(p, "close.") || strings.HasPrefix(p, "search.") || strings.HasPrefix(p, "memtable.") {
 			r.Count("hook-hits:"+p, c)
